@@ -222,7 +222,10 @@ class RuleDBBase(RuleDBAbstract):
 
     def has_specification(self) -> bool:
         """Return True if a specification has been found, false otherwise."""
-        return self.equivdb[self.root_label] in self.pruned_dict
+        # Computing the pruned dict connects the cycles of the equivalence database
+        # which can change the representative of the root.
+        pruned_dict = self.pruned_dict
+        return self.equivdb[self.root_label] in pruned_dict
 
     def rule_from_equivalence_rule(
         self, eqv_start: int, eqv_ends: Iterable[int]
